@@ -22,6 +22,7 @@ EXPLANATION = (
     "the created model; every optional hook is guarded by the membership test of its own key; for the six system/agent "
     "level roles a store ['params']['model'] = <created model> precedes the consuming call; agent_index is the loop "
     "variable of a range starting at 0 bounded by the group's `number`.")
+EXPLANATION += (" Hook functions and classes are resolved in the module named by their own entry; the scheduler / environment a decoded object is registered with is read after the hooks that may replace it. Premises: C01 (declared scheduling), C04's Environment.add_agent rules.")
 ASSUMPTIONS = ["what user decode() static methods and hooks do is outside the package", "sys.modules name resolution at run time"]
 
 HOOKS = {'pre_model_decode': 'data', 'post_model_decode': 'data', 'pre_system_init': 'system', 'post_system_init': 'system',
